@@ -202,25 +202,41 @@ func cause(t string) string {
 
 const tagAddOrOverwriteUser = "3:11:" // event.TypeStats : event.TagAddOrOverwriteUser
 
-func compare(txns []string, rs []*result) *detail {
+func compareAll(txns []string, rs []*result) []*detail {
+	var all []*detail
+	seen := map[string]bool{}
+	add := func(d *detail) {
+		k := d.what + ":" + d.kind
+		if !seen[k] {
+			seen[k] = true
+			all = append(all, d)
+		}
+	}
 	a := rs[0]
 	for i, r := range rs[1:] {
 		who := fmt.Sprintf("execution 0 vs %d", i+1)
 		if len(r.Txns) != len(a.Txns) {
-			return &detail{"worker", -1, "", who + ": different number of transaction results"}
+			return []*detail{{"worker", -1, "", who + ": different number of transaction results"}}
 		}
+	txnLoop:
 		for k := range a.Txns {
 			x, y := a.Txns[k], r.Txns[k]
 			kind := kindOfTxn(txns[k])
 			switch {
 			case x.Status != y.Status || x.Err != y.Err:
-				return &detail{"status", k, kind, fmt.Sprintf("%s: txn %d %q: status %d %q versus status %d %q", who, k, truncate(txns[k], 120), x.Status, truncate(x.Output+x.Err, 150), y.Status, truncate(y.Output+y.Err, 150))}
+				// the state diverges from here on: later transactions of this pair of executions cannot be attributed
+				add(&detail{"status", k, kind, fmt.Sprintf("%s: txn %d %q: status %d %q versus status %d %q", who, k, truncate(txns[k], 120), x.Status, truncate(x.Output+x.Err, 150), y.Status, truncate(y.Output+y.Err, 150))})
+				break txnLoop
 			case x.Output != y.Output && x.Status == 2:
-				return &detail{"error-output", k, kind, fmt.Sprintf("%s: txn %d %q fails in both, with output %q versus %q", who, k, truncate(txns[k], 120), truncate(x.Output, 150), truncate(y.Output, 150))}
+				// only the output differs; the state is the same, so the comparison goes on
+				add(&detail{"error-output", k, kind, fmt.Sprintf("%s: txn %d %q fails in both, with output %q versus %q", who, k, truncate(txns[k], 120), truncate(x.Output, 150), truncate(y.Output, 150))})
+				continue
 			case x.Output != y.Output || x.Root != y.Root:
-				return &detail{"state", k, kind + cause(txns[k]), fmt.Sprintf("%s: txn %d %q succeeds in both; state root after it %s versus %s, output %q versus %q", who, k, truncate(txns[k], 120), x.Root[:16], y.Root[:16], truncate(x.Output, 60), truncate(y.Output, 60))}
+				add(&detail{"state", k, kind + cause(txns[k]), fmt.Sprintf("%s: txn %d %q succeeds in both; state root after it %s versus %s, output %q versus %q", who, k, truncate(txns[k], 120), x.Root[:16], y.Root[:16], truncate(x.Output, 60), truncate(y.Output, 60))})
+				break txnLoop
 			case x.Changes != y.Changes:
-				return &detail{"changes", k, kind, fmt.Sprintf("%s: txn %d %q: change count after it %d versus %d", who, k, truncate(txns[k], 120), x.Changes, y.Changes)}
+				add(&detail{"changes", k, kind, fmt.Sprintf("%s: txn %d %q: change count after it %d versus %d", who, k, truncate(txns[k], 120), x.Changes, y.Changes)})
+				break txnLoop
 			}
 			if strings.Join(x.Events, "\n") != strings.Join(y.Events, "\n") {
 				if strings.Join(sortedCopy(x.Events), "\n") == strings.Join(sortedCopy(y.Events), "\n") {
@@ -240,17 +256,47 @@ func compare(txns []string, rs []*result) *detail {
 					if onlyUsers {
 						kk = "user-events"
 					}
-					return &detail{"events-order", k, kk, fmt.Sprintf("%s: txn %d %q: same events in another order, %s", who, k, truncate(txns[k], 120), first)}
+					add(&detail{"events-order", k, kk, fmt.Sprintf("%s: txn %d %q: same events in another order, %s", who, k, truncate(txns[k], 120), first)})
+					continue
 				}
-				return &detail{"events", k, kind, fmt.Sprintf("%s: txn %d %q: different events", who, k, truncate(txns[k], 120))}
+				add(&detail{"events", k, kind, fmt.Sprintf("%s: txn %d %q: different events", who, k, truncate(txns[k], 120))})
 			}
 		}
-		if r.Root != a.Root || r.Changes != a.Changes {
-			return &detail{"state", -1, "block", who + ": final root / change count differ although every transaction agreed"}
+		if len(all) == 0 && (r.Root != a.Root || r.Changes != a.Changes) {
+			add(&detail{"state", -1, "block", who + ": final root / change count differ although every transaction agreed"})
 		}
+	}
+	return all
+}
+
+// expected: the kinds of difference already recorded as findings; an unexpected one in the same block is reported first
+func expected(d *detail) bool {
+	switch d.what {
+	case "error-output":
+		return strings.HasPrefix(d.kind, "gov-")
+	case "state":
+		return d.kind == "commit" || strings.HasPrefix(d.kind, "gov-storage-") || strings.HasPrefix(d.kind, "gov-faucet-") || strings.HasPrefix(d.kind, "gov-vesting-")
+	case "status":
+		return d.kind == "gov-faucet" || d.kind == "gov-vesting" || d.kind == "unlock"
+	case "events-order":
+		return d.kind == "user-events"
+	}
+	return false
+}
+
+func compare(txns []string, rs []*result) *detail {
+	all := compareAll(txns, rs)
+	for _, d := range all {
+		if !expected(d) {
+			return d
+		}
+	}
+	if len(all) > 0 {
+		return all[0]
 	}
 	return nil
 }
+
 
 func impl(ops []string) []string {
 	startWorkers()
@@ -477,8 +523,14 @@ func genGov(r *rand.Rand) string {
 		switch e.tag {
 		case "faucet":
 			kvs = []string{"cost.pour=5", "pour_amount=3", "max_pour_amount=300", "periodic_limit=3000"}
+			if r.Intn(2) == 0 {
+				kvs = []string{"cost.pour=5", "pour_amount=x", "max_pour_amount=y", "periodic_limit=z"}
+			}
 		case "vesting":
 			kvs = []string{"cost.add=5", "max_destinations=7", "max_description_length=9", "min_duration=1s"}
+			if r.Intn(2) == 0 {
+				kvs = []string{"cost.add=5", "max_destinations=x", "max_description_length=y", "min_duration=z"}
+			}
 		default:
 			add(e.bad[0])
 			add(e.good[0])
@@ -505,9 +557,9 @@ func gen(r *rand.Rand, thorough bool, i int) []string {
 	locked := false
 	for k := 0; k < n; k++ {
 		switch x := r.Intn(100); {
-		case x < 45:
+		case x < 30:
 			ops = append(ops, "txn "+genGov(r))
-		case x < 65:
+		case x < 60:
 			from := people[r.Intn(len(people))]
 			to := people[r.Intn(len(people))]
 			if to == from {
@@ -543,6 +595,8 @@ func fixed() [][]string {
 		{"init 0 0 fixed 1", "txn gov storage owner max_delegates=11 %20max_delegates=22 max_delegates%20=33", "txn commit", "exec"},
 		{"init 0 0 fixed 1", "txn gov faucet owner cost.pour=11 cost.POUR=22 cost.Pour=33 cost.pOUR=44", "exec"},
 		{"init 0 0 fixed 1", "txn gov vesting owner cost.add=5 max_destinations=7 max_description_length=9 min_duration=1s", "exec"},
+		{"init 0 0 fixed 1", "txn gov faucet owner cost.pour=5 pour_amount=x max_pour_amount=y periodic_limit=z", "exec"},
+		{"init 0 0 fixed 1", "txn gov vesting owner cost.add=5 max_destinations=x max_description_length=y min_duration=z", "exec"},
 		// user events (a send touches sender, receiver and the fee receiver)
 		{"init 0 1 fixed 1", "txn send alice bob 5", "txn send bob carol 7", "exec"},
 		{"init 0 0 fixed 1", "txn send alice bob 5", "txn pour carol", "txn gov miner owner max_n=8", "txn gov globals owner server_chain.block.max_block_size=77", "exec"},
